@@ -26,6 +26,7 @@
        FREEG <slot>
        ERR <slot>
        FAILAT <k>             (fault build only) fail the k-th allocation from now on
+       FAILBIG <k> <minsize>  (fault build only) count the requests of at least minsize bytes from now on; the k-th fails (k < 0: none)
        COUNTERS               print allocator / hash counters
      END
 */
@@ -61,6 +62,15 @@ extern long yaep_verif_stat (int what);
 /* Allocation wrappers used by the fault / counting build
    (allocate.c compiled with -Dmalloc=yv_malloc ...).                   */
 static long yv_n_allocs, yv_bytes, yv_fail_at = -1, yv_fail_seen;
+/* FAILBIG: requests of at least yv_big_min bytes are counted; the yv_big_fail-th of them fails */
+static long yv_big_min, yv_n_big, yv_big_fail = -1;
+static int yv_big (size_t n)
+{
+  if (yv_big_min <= 0 || (long) n < yv_big_min) return 0;
+  yv_n_big++;
+  if (yv_big_fail >= 0 && yv_n_big == yv_big_fail) { yv_fail_seen = 1; return 1; }
+  return 0;
+}
 #ifdef __cplusplus
 extern "C" {
 #endif
@@ -68,18 +78,21 @@ void *yv_malloc (size_t n)
 {
   yv_n_allocs++; yv_bytes += (long) n;
   if (yv_fail_at >= 0 && yv_n_allocs == yv_fail_at) { yv_fail_seen = 1; return NULL; }
+  if (yv_big (n)) return NULL;
   return malloc (n);
 }
 void *yv_calloc (size_t a, size_t b)
 {
   yv_n_allocs++; yv_bytes += (long) (a * b);
   if (yv_fail_at >= 0 && yv_n_allocs == yv_fail_at) { yv_fail_seen = 1; return NULL; }
+  if (yv_big (a * b)) return NULL;
   return calloc (a, b);
 }
 void *yv_realloc (void *p, size_t n)
 {
   yv_n_allocs++; yv_bytes += (long) n;
   if (yv_fail_at >= 0 && yv_n_allocs == yv_fail_at) { yv_fail_seen = 1; return NULL; }
+  if (yv_big (n)) return NULL;
   return realloc (p, n);
 }
 void yv_free (void *p) { free (p); }
@@ -280,7 +293,7 @@ static int find_block (void *p)
 static void cb_parse_free (void *mem)
 {
   int b;
-  if (mem == NULL) { log_free (-1000000000L); return; }	/* free (NULL): logged, harmless */
+  if (mem == NULL) { log_free (-1000000000L); return; }	/* free (NULL): logged; the checks count it as a pointer parse_alloc never returned */
   b = find_block (mem);
   if (b < 0) { log_free (-1); return; }
   if (blocks[b].freed) { log_free (-2 - b); return; }
@@ -620,9 +633,17 @@ static void run_case (void)
 	  if (k >= 0) yv_fail_seen = 0;
 	  fprintf (out, "{\"op\":\"failat\"}");
 	}
+      else if (strcmp (t, "FAILBIG") == 0)
+	{
+	  /* FAILBIG k minsize: count the requests of at least minsize bytes from now on; the k-th fails (k < 0: none) */
+	  long k = next_int ();
+	  yv_big_min = next_int (); yv_n_big = 0; yv_big_fail = k;
+	  if (k >= 0) yv_fail_seen = 0;
+	  fprintf (out, "{\"op\":\"failat\"}");
+	}
       else if (strcmp (t, "COUNTERS") == 0)
 	{
-	  fprintf (out, "{\"op\":\"counters\",\"allocs\":%ld,\"bytes\":%ld,\"fail_seen\":%ld", yv_n_allocs, yv_bytes, yv_fail_seen);
+	  fprintf (out, "{\"op\":\"counters\",\"allocs\":%ld,\"bytes\":%ld,\"fail_seen\":%ld,\"big\":%ld", yv_n_allocs, yv_bytes, yv_fail_seen, yv_n_big);
 #ifndef __cplusplus
 	  fprintf (out, ",\"searches\":%d,\"collisions\":%d", get_all_searches (), get_all_collisions ());
 #endif
@@ -663,7 +684,7 @@ static void reset_case_state (void)
   for (i = 0; i < MAX_SLOTS; i++) slots[i] = NULL;
   for (i = 0; i < MAX_PARSES; i++) roots[i] = NULL;
   n_parses = 0; n_blocks = 0; n_free_log = 0; n_serrs = 0; cur_parse = -1;
-  yv_fail_at = -1; yv_fail_seen = 0; eof_value = -1;
+  yv_fail_at = -1; yv_fail_seen = 0; eof_value = -1; yv_big_min = 0; yv_n_big = 0; yv_big_fail = -1;
 }
 
 /* Print the kept diagnostic lines of a child's stderr.  */
@@ -688,7 +709,7 @@ static void print_stderr_lines (char *ebuf)
    worker continues with the next case.  BATCH = 1 isolates every case.  */
 int main (int argc, char **argv)
 {
-  FILE *f; long timeout_s = 20, batch = 1;
+  FILE *f; long timeout_s = 20, batch = 1; int n_watchdog = 0, n_crash = 0;
   if (argc < 2) { fprintf (stderr, "usage: yv_driver script [timeout_s [batch]]\n"); return 2; }
   if (argc > 2) timeout_s = strtol (argv[2], NULL, 10);
   if (argc > 3) batch = strtol (argv[3], NULL, 10);
@@ -713,6 +734,19 @@ int main (int argc, char **argv)
 	/* next_tok wrote a NUL after CASE; harmless: tokens are re-read from SAVE */
       }
       fflush (stdout);
+      if (n_watchdog >= 3 || n_crash >= 60)
+	{
+	  /* three cases of this script have hit the watchdog: the remaining ones are not run
+	     (a change that makes every case hang must not make the run take hours) */
+	  char *t = next_tok (), *id = next_tok ();
+	  (void) t;
+	  printf ("{\"id\":"); { FILE *sv = out; out = stdout; jstr (id ? id : "?"); out = sv; }
+	  printf (",\"ops\":[],\"abort\":\"not run: %s\"}\n", n_watchdog >= 3 ? "three earlier cases of this run hit the watchdog"
+		  : "sixty earlier cases of this run ended in a crash (a sanitizer report costs half a second each)");
+	  while ((t = next_tok ()) != NULL && strcmp (t, "END") != 0)
+	    ;
+	  continue;
+	}
       if (pipe (pfd) != 0 || pipe (efd) != 0) { perror ("pipe"); return 2; }
       pid = fork ();
       if (pid == 0)
@@ -793,6 +827,10 @@ int main (int argc, char **argv)
 	      if (ops) { size_t l = strlen (ops); while (l > 0 && ops[l - 1] == ',') ops[--l] = 0; }
 	      printf ("{\"id\":"); { FILE *sv = out; out = stdout; jstr (cur_id); out = sv; }
 	      printf (",\"ops\":[%s]", ops ? ops : "");
+	      /* after three watchdog timeouts the rest of the script runs with a short watchdog:
+		 a change that makes every case hang must not make the run take hours */
+	      if (WIFSIGNALED (status) && WTERMSIG (status) == SIGALRM) n_watchdog++;
+	      else n_crash++;
 	      if (WIFSIGNALED (status)) printf (",\"abort\":\"signal %d\"", WTERMSIG (status));
 	      else printf (",\"abort\":\"exit %d\"", WIFEXITED (status) ? WEXITSTATUS (status) : -1);
 	      if (ebuf) print_stderr_lines (ebuf);
@@ -803,6 +841,9 @@ int main (int argc, char **argv)
 	    {
 	      /* all cases completed but the worker did not exit cleanly (leak report at exit) */
 	      printf ("{\"id\":\"@exit\",\"after\":"); { FILE *sv = out; out = stdout; jstr (cur_id ? cur_id : ""); out = sv; }
+	      /* after three watchdog timeouts the rest of the script runs with a short watchdog:
+		 a change that makes every case hang must not make the run take hours */
+	      if (WIFSIGNALED (status) && WTERMSIG (status) == SIGALRM) n_watchdog++;
 	      if (WIFSIGNALED (status)) printf (",\"abort\":\"signal %d\"", WTERMSIG (status));
 	      else printf (",\"abort\":\"exit %d\"", WEXITSTATUS (status));
 	      if (ebuf) print_stderr_lines (ebuf);
